@@ -64,6 +64,12 @@ pub struct Run {
     pub capped: AtomicBool,
     /// when set, nothing is written and the process does not exit in `finish` (used by replay)
     pub replay_mode: bool,
+    /// watchdog slots: (index of the case a worker is executing, time it last showed progress)
+    slots: Vec<(AtomicU64, AtomicU64)>,
+}
+
+thread_local! {
+    static SLOT: std::cell::Cell<usize> = const { std::cell::Cell::new(usize::MAX) };
 }
 
 pub fn machinery_error(msg: &str) -> ! {
@@ -129,6 +135,15 @@ impl Run {
             cov: Mutex::new(Coverage::default()),
             capped: AtomicBool::new(false),
             replay_mode: false,
+            slots: (0..64).map(|_| (AtomicU64::new(u64::MAX), AtomicU64::new(0))).collect(),
+        }
+    }
+
+    /// long-running cases (nested explorations) call this to tell the watchdog that they make progress
+    pub fn heartbeat(&self) {
+        let slot = SLOT.with(|s| s.get());
+        if slot < self.slots.len() {
+            self.slots[slot].1.store(self.start.elapsed().as_millis() as u64, Ordering::SeqCst);
         }
     }
 
@@ -220,14 +235,15 @@ impl Run {
         I: Fn() -> S + Sync,
         F: Fn(&mut S, u64) + Sync,
     {
-        let threads = self.threads.max(1);
+        let threads = self.threads.clamp(1, 64);
         let chunk = (total / (threads as u64 * 16)).clamp(1, 4096);
         let next = AtomicU64::new(0);
         let stop = AtomicBool::new(false);
         let finished = AtomicU64::new(0);
-        let cur: Vec<(AtomicU64, AtomicU64)> = (0..threads)
-            .map(|_| (AtomicU64::new(u64::MAX), AtomicU64::new(0)))
-            .collect();
+        let cur = &self.slots;
+        for c in cur.iter() {
+            c.0.store(u64::MAX, Ordering::SeqCst);
+        }
         let watchdog_s: u64 = std::env::var("VERIF_WATCHDOG_S")
             .ok()
             .and_then(|s| s.parse().ok())
@@ -237,9 +253,9 @@ impl Run {
         std::thread::scope(|sc| {
             let mut hs = vec![];
             for t in 0..threads {
-                let (next, stop, cur, f, init, finished) =
-                    (&next, &stop, &cur, &f, &init, &finished);
+                let (next, stop, f, init, finished) = (&next, &stop, &f, &init, &finished);
                 hs.push(sc.spawn(move || {
+                    SLOT.with(|s| s.set(t));
                     let mut s = init();
                     loop {
                         if stop.load(Ordering::SeqCst) {
